@@ -170,6 +170,8 @@ impl Generator {
                             if let StackObject::List(ref mut list) = *cell.borrow_mut() {
                                 list.push(item);
                             }
+                            let target = cell.downgrade();
+                            self.state.note_mutated(target);
                         }
                     }
                 }
@@ -188,6 +190,8 @@ impl Generator {
                     if let StackObject::List(ref mut list) = *list_obj.borrow_mut() {
                         list.extend(items_to_append);
                     }
+                    let target = list_obj.downgrade();
+                    self.state.note_mutated(target);
                 }
             }
             List => {
@@ -272,6 +276,8 @@ impl Generator {
                                 if let StackObject::Dict(ref mut dict) = *cell.borrow_mut() {
                                     dict.insert(key, value);
                                 }
+                                let target = cell.downgrade();
+                                self.state.note_mutated(target);
                             }
                         }
                     }
@@ -298,6 +304,8 @@ impl Generator {
                                 dict.insert(key, value);
                             }
                         }
+                        let target = cell.downgrade();
+                        self.state.note_mutated(target);
                     }
                 }
             }
@@ -323,6 +331,8 @@ impl Generator {
                                 set.insert(item);
                             }
                         }
+                        let target = cell.downgrade();
+                        self.state.note_mutated(target);
                     }
                 }
             }
@@ -586,6 +596,7 @@ impl Generator {
                     if let StackObject::Instance(ref mut inst) = *instance_ref.borrow_mut() {
                         inst.args = state;
                     }
+                    self.state.note_mutated(instance_ref.downgrade());
                     self.push(instance_ref.borrow().clone());
                 }
             }
